@@ -381,15 +381,15 @@ Proof.
   rewrite !forallb_app. unfold free_of in Hc. rewrite Hc. reflexivity.
 Qed.
 
+Ltac norm_in E := repeat (progress (rewrite <- ?app_assoc in E; cbn [app] in E)).
+
 Lemma prop_piece_inj name v v' r r' : tag_ok v -> tag_ok v' ->
   prop_piece current true name v ++ r = prop_piece current true name v' ++ r' -> render_eq v v' /\ r = r'.
 Proof.
-  intros Tv Tv'. rewrite !prop_piece_eq. cbn [app]. intros E. injection E as E.
+  intros Tv Tv'. rewrite !prop_piece_eq. intros E. norm_in E. injection E as E.
   apply app_inv_head in E. injection E as E.
-  rewrite <- !app_assoc in E. cbn [app] in E.
   assert (Hs : nochar "(" "(" = false) by reflexivity.
   destruct (split_unique (nochar "(") "(" Hs _ _ _ _ (tytag_no_lparen v Tv) (tytag_no_lparen v' Tv') E) as [Et E'].
-  rewrite <- !app_assoc in E'. cbn [app] in E'.
   apply frame_unique in E' as [Es Er]. unfold render_eq. auto.
 Qed.
 
@@ -420,8 +420,10 @@ Section Complete.
     - destruct (Hs f (or_introl eq_refl)) as (v & v' & E1 & E2 & T1 & T2).
       cbn [flat_map] in E. rewrite E1, E2 in E. cbn [app flat_map fst snd] in E.
       rewrite <- !app_assoc in E.
-      apply prop_piece_inj in E as [Hr E]; auto.
-      apply IH in E as [Hall Er]; [|intros g Hg; apply Hs; simpl; auto].
-      split; auto. intros g [<-|Hg]; auto. rewrite E1, E2. exact Hr.
+      apply (prop_piece_inj _ v v' _ _ T1 T2) in E as [Hr E].
+      assert (Hs' : forall g, In g fs -> exists v v', assoc (fd_name g) ps = Some v /\ assoc (fd_name g) ps' = Some v' /\ tag_ok v /\ tag_ok v')
+        by (intros g Hg; apply Hs; simpl; auto).
+      destruct (IH Hs' E) as [Hall Er].
+      split; [|exact Er]. intros g [<-|Hg]; [rewrite E1, E2; exact Hr | exact (Hall g Hg)].
   Qed.
 End Complete.
